@@ -15,14 +15,18 @@ import random
 import shutil
 import subprocess
 from concurrent.futures import ThreadPoolExecutor
-from ..common import (Report, main_wrapper, seed, tier, shards, MachineryError,
+from ..common import (Report, main_wrapper, seed, tier, shards, MachineryError, pmap,
                       NCPU, workdir, PY, VERIF, REPO)
 from ..tlc import run_tlc
 from .. import values as V
 from .. import wbgen as G
+from .. import wbrun as R
+from .. import impl
 
 PID = 'C03'
 GEN_KW = {'n_cells': 9, 'features': ['names', 'array'], 'case_titles': True, 'overlaps': True}
+# C03's own workbooks also use whole-column references (SUM(A:A)); C07 / C08 share GEN_KW
+OWN_KW = dict(GEN_KW, features=['names', 'array', 'wholecol'])
 
 
 def run_jobs(wd, gen_kw, items, hashseeds):
@@ -103,6 +107,34 @@ def validate_traces(rep, wd, cf, traces, pid):
     return rejected
 
 
+def _wholecol(item):
+    import tempfile
+    import shutil
+    impl.F()
+    g = G.make(item['seed'], **OWN_KW)
+    out = {'obs': [], 'problems': []}
+    for path in ('dict', 'file'):
+        d = tempfile.mkdtemp(prefix='verif-c03wc-')
+        try:
+            m = R.build_dict(g) if path == 'dict' else R.build_files(g, d)
+            obs = R.observe_all(m.calculate(), g)
+        except BaseException as ex:  # noqa
+            if isinstance(ex, (KeyboardInterrupt, SystemExit)):
+                raise
+            out['problems'].append((path, None, None, 'raises %s: %s' % (type(ex).__name__, str(ex)[:150])))
+            continue
+        finally:
+            shutil.rmtree(d, ignore_errors=True)
+        for i, e in item['sem'].items():
+            if i not in g.cells:
+                continue
+            out['obs'].append(i)
+            o = obs.get(i)
+            if o is None or not V.matches(e, o):
+                out['problems'].append((path, i, V.show(e), V.show(o) if o else None))
+    return out
+
+
 def main():
     rep = Report(PID)
     thorough = tier() == 'thorough'
@@ -114,7 +146,26 @@ def main():
     try:
         gens = {s: G.make(s, **GEN_KW) for s in seeds}
         cases = [G.tla_case(gens[s]) for s in seeds]
-        sem, cf = tlc_sem(rep, wd, cases, '%d workbooks' % n)
+        # a few workbooks with whole-column references (each costs seconds and gigabytes in
+        # this library, so they are few and run four at a time)
+        wc, k = [], 0
+        while len(wc) < (6 if not thorough else 30) and k < 2000:
+            g_ = G.make(base_seed + 50000 + k, **OWN_KW)
+            if any("'col'" in repr(c.get('e')) for c in g_.cells.values()):
+                wc.append(g_)
+            k += 1
+        cases += [G.tla_case(g_) for g_ in wc]
+        sem, cf = tlc_sem(rep, wd, cases, '%d workbooks' % len(cases))
+        for g_, res_ in zip(wc, pmap(_wholecol, [{'seed': g_.seed, 'sem': sem[n + i]}
+                                                 for i, g_ in enumerate(wc)], chunk=1, procs=4)):
+            rep.count(len(res_['obs']))
+            rep.distinct(('wc', g_.seed))
+            for path_, cell_, exp_, obs_ in res_['problems']:
+                rep.violation({'kind': 'value', 'seed': g_.seed, 'cell': cell_, 'path': path_,
+                               'got': obs_},
+                              {'workbook_seed': g_.seed, 'variant': 'whole-column/' + path_, 'cell': cell_,
+                               'expected': exp_, 'observed': obs_, 'workbook': describe(g_),
+                               'how': 'workbook with a whole-column reference, dict and file load paths'})
         variants = [
             {'path': 'dict', 'order': None, 'spell': None, 'trace': True},
             {'path': 'dict', 'order': 1, 'spell': 1},
